@@ -248,6 +248,9 @@ func (w *worker) emit(cs *caseT) {
 	if out.RejectExpected {
 		r.Notes["rejection-expected"]++
 	}
+	if out.LateCalls > 0 {
+		r.Notes["fetcher-sequences-with-a-late-request-call"]++
+	}
 	if out.StaleOrigin {
 		r.Notes["fetcher-stale-origin-states"]++
 	}
